@@ -12,7 +12,7 @@ package tbtc
 // package's local chain for address derivation) runs
 // executeFollowerRoutine(leader, block 900, allowed {Redemption, Noop}) on a
 // fake broadcast channel. The case's coordinationMessage (block 900/901,
-// wallet hash right/wrong, Noop = allowed / Heartbeat = not allowed proposal)
+// wallet hash right/wrong, Redemption or Noop = allowed / Heartbeat = not allowed proposal)
 // is delivered; the routine either returns the proposal ("accepted") or, after
 // a barrier message proves the loop processed the case's message, the context
 // is cancelled and the returned faults are classified: only the closing
@@ -32,6 +32,10 @@ package tbtc
 // &signingDoneMessage{}); a nil signature cannot be expressed on the wire and
 // is delivered as a decoded value whose signature was removed.
 // No timing assumption decides anything: all waits are on channels.
+//
+// Streams (AdmissionLoop.tla): sequences of 1..3 messages are delivered to one
+// follower routine (faults in order and the returned proposal are compared) and
+// to one listener (doneSigners: member -> which message was kept).
 
 import (
 	"context"
@@ -44,6 +48,7 @@ import (
 	"github.com/keep-network/keep-core/internal/testutils"
 	verifadm "github.com/keep-network/keep-core/internal/verifadm"
 	kit "github.com/keep-network/keep-core/internal/verifkit"
+	"github.com/keep-network/keep-core/pkg/bitcoin"
 	"github.com/keep-network/keep-core/pkg/chain"
 	"github.com/keep-network/keep-core/pkg/net"
 	"github.com/keep-network/keep-core/pkg/protocol/group"
@@ -66,7 +71,14 @@ type c12Tbtc struct {
 }
 
 func (h *c12Tbtc) coordinationTemplate(c *verifadm.Case) net.TaggedMarshaler {
-	m := &coordinationMessage{coordinationBlock: c12Block, walletPublicKeyHash: h.walletPKH, proposal: &NoopProposal{}}
+	// two allowed proposals: a redemption (a value the harness can recognise by identity when the
+	// routine returns it) and, for receivers with an even index in single-message cases, a no-op
+	var proposal CoordinationProposal = &RedemptionProposal{
+		RedeemersOutputScripts: []bitcoin.Script{{0x00, 0x14, 0x8d, 0xb5}}, RedemptionTxFee: big.NewInt(10000)}
+	if c.Recv%2 == 0 && c.Rule != "" {
+		proposal = &NoopProposal{}
+	}
+	m := &coordinationMessage{coordinationBlock: c12Block, walletPublicKeyHash: h.walletPKH, proposal: proposal}
 	if c.BadCtx["block"] {
 		m.coordinationBlock = c12Block + 1
 	}
@@ -108,14 +120,19 @@ func (h *c12Tbtc) payload(c *verifadm.Case, typ string) (interface{}, error) {
 	return nil, fmt.Errorf("harness: unknown tbtc payload type %q", typ)
 }
 
-// follower drives coordinationExecutor.executeFollowerRoutine.
-func (h *c12Tbtc) follower(c *verifadm.Case, typ string) (string, string, error) {
-	p, err := h.payload(c, typ)
-	if o, d, e, stop := verifadm.Dropped(err); stop {
-		return o, d, e
-	}
-	self := h.w.Keys[h.w.OwnerOf(c.Recv)]
-	leader := h.w.Keys[c.Leader]
+type c12FollowerResult struct {
+	proposal CoordinationProposal
+	faults   []*coordinationFault
+	err      error
+	panicked interface{}
+}
+
+// runFollower runs the real executeFollowerRoutine of the operator of seat recv
+// with the given leader, delivers the messages in order and returns what the
+// routine returned (after cancellation, if it did not return by itself).
+func (h *c12Tbtc) runFollower(recv int, leaderKey string, msgs []net.Message) (*c12FollowerResult, error) {
+	self := h.w.Keys[h.w.OwnerOf(recv)]
+	leader := h.w.Keys[leaderKey]
 	ch := verifadm.NewChannel()
 	executor := &coordinationExecutor{
 		chain:               h.chain,
@@ -128,14 +145,11 @@ func (h *c12Tbtc) follower(c *verifadm.Case, typ string) (string, string, error)
 	ctx, cancel := context.WithCancel(context.Background())
 	defer cancel()
 	done := make(chan struct{})
-	var proposal CoordinationProposal
-	var faults []*coordinationFault
-	var rerr error
-	var panicked interface{}
+	res := &c12FollowerResult{}
 	go func() {
 		defer close(done)
-		defer func() { panicked = recover() }()
-		proposal, faults, rerr = executor.executeFollowerRoutine(ctx, leader.Address, c12Block,
+		defer func() { res.panicked = recover() }()
+		res.proposal, res.faults, res.err = executor.executeFollowerRoutine(ctx, leader.Address, c12Block,
 			[]WalletActionType{ActionRedemption, ActionNoop})
 	}()
 	// the routine registers its handler before it starts to wait
@@ -143,60 +157,136 @@ func (h *c12Tbtc) follower(c *verifadm.Case, typ string) (string, string, error)
 	for ch.Handlers() == 0 {
 		select {
 		case <-done:
-			return "", "", fmt.Errorf("harness: follower routine ended before receiving: %v / %v", rerr, panicked)
+			return nil, fmt.Errorf("harness: follower routine ended before receiving: %v / %v", res.err, res.panicked)
 		default:
 		}
 		if time.Now().After(deadline) {
-			return "", "", fmt.Errorf("harness: follower routine did not register a receive handler")
+			return nil, fmt.Errorf("harness: follower routine did not register a receive handler")
 		}
 		time.Sleep(50 * time.Microsecond)
 	}
-	ch.Deliver(h.w.Net(c, p))
+	for _, m := range msgs {
+		ch.Deliver(m)
+	}
 	if !ch.Barrier(h.w, done) {
 		select {
-		case <-done: // the routine returned on the case's message
+		case <-done: // the routine returned on one of the messages
 		default:
-			return "", "", fmt.Errorf("harness: the follower loop did not reach the barrier message")
+			return nil, fmt.Errorf("harness: the follower loop did not reach the barrier message")
 		}
 	}
 	cancel()
 	select {
 	case <-done:
 	case <-time.After(120 * time.Second):
-		return "", "", fmt.Errorf("harness: follower routine did not return after cancellation")
+		return nil, fmt.Errorf("harness: follower routine did not return after cancellation")
 	}
-	if panicked != nil {
-		return "panic", fmt.Sprint(panicked), nil
+	return res, nil
+}
+
+func (r *c12FollowerResult) String() string {
+	s := fmt.Sprintf("proposal=%v err=%v faults=", r.proposal != nil, r.err)
+	for _, f := range r.faults {
+		s += f.String() + ";"
 	}
-	describe := func() string {
-		s := fmt.Sprintf("proposal=%v err=%v faults=", proposal != nil, rerr)
-		for _, f := range faults {
-			s += f.String() + ";"
+	return s
+}
+
+// follower drives coordinationExecutor.executeFollowerRoutine with one message.
+func (h *c12Tbtc) follower(c *verifadm.Case, typ string) (string, string, error) {
+	p, err := h.payload(c, typ)
+	if o, d, e, stop := verifadm.Dropped(err); stop {
+		return o, d, e
+	}
+	res, err := h.runFollower(c.Recv, c.Leader, []net.Message{h.w.Net(c, p)})
+	if err != nil {
+		return "", "", err
+	}
+	if res.panicked != nil {
+		return "panic", fmt.Sprint(res.panicked), nil
+	}
+	leader := h.w.Keys[c.Leader]
+	proposal, faults := res.proposal, res.faults
+	if res.err == nil {
+		sentProposal := p.(*coordinationMessage).proposal
+		if proposal == nil || len(faults) != 0 || proposal.ActionType() != sentProposal.ActionType() ||
+			(proposal.ActionType() == ActionRedemption && proposal != sentProposal) {
+			return "corrupted", res.String(), nil
 		}
-		return s
-	}
-	if rerr == nil {
-		if proposal == nil || len(faults) != 0 || proposal != p.(*coordinationMessage).proposal {
-			return "corrupted", describe(), nil
-		}
-		return verifadm.Accepted, describe(), nil
+		return verifadm.Accepted, res.String(), nil
 	}
 	if proposal != nil || len(faults) == 0 {
-		return "corrupted", describe(), nil
+		return "corrupted", res.String(), nil
 	}
 	last := faults[len(faults)-1]
 	if last.faultType != FaultLeaderIdleness || last.culprit != leader.Address {
-		return "corrupted", describe(), nil
+		return "corrupted", res.String(), nil
 	}
 	switch rest := faults[:len(faults)-1]; {
 	case len(rest) == 0:
-		return verifadm.Ignored, describe(), nil
+		return verifadm.Ignored, res.String(), nil
 	case len(rest) == 1 && rest[0].faultType == FaultLeaderImpersonation && rest[0].culprit == h.w.Keys[c.Key].Address:
-		return verifadm.Impersonation, describe(), nil
+		return verifadm.Impersonation, res.String(), nil
 	case len(rest) == 1 && rest[0].faultType == FaultLeaderMistake && rest[0].culprit == leader.Address:
-		return verifadm.Mistake, describe(), nil
+		return verifadm.Mistake, res.String(), nil
 	}
-	return "corrupted", describe(), nil
+	return "corrupted", res.String(), nil
+}
+
+// followerSequence replays a stream of coordination messages (AdmissionLoop.tla, kind untilAccept).
+func (h *c12Tbtc) followerSequence(q *verifadm.Sequence) (verifadm.LoopState, string, error) {
+	out := verifadm.LoopState{Faults: []verifadm.Fault{}}
+	var msgs []net.Message
+	number := map[CoordinationProposal]int{}
+	for i, c := range q.Msgs {
+		p, err := h.payload(c, "coordinationMessage")
+		if _, _, e, stop := verifadm.Dropped(err); stop {
+			if e != nil {
+				return out, "", e
+			}
+			continue // dropped by the decoder
+		}
+		number[p.(*coordinationMessage).proposal] = i + 1
+		msgs = append(msgs, h.w.Net(c, p))
+	}
+	res, err := h.runFollower(q.Msgs[0].Recv, q.Leader, msgs)
+	if err != nil {
+		return out, "", err
+	}
+	if res.panicked != nil {
+		return verifadm.LoopState{Returned: -1}, fmt.Sprint("panic: ", res.panicked), nil
+	}
+	nameOf := func(a chain.Address) string {
+		for name, k := range h.w.Keys {
+			if k.Address == a {
+				return name
+			}
+		}
+		return "unknown:" + a.String()
+	}
+	faults := res.faults
+	note := ""
+	if res.err == nil {
+		out.Returned = number[res.proposal]
+		if out.Returned == 0 {
+			out.Returned = -1
+			note = "returned a proposal that was never delivered"
+		}
+	} else {
+		// a routine that received no acceptable proposal closes with the leader idleness fault
+		if n := len(faults); n == 0 || faults[n-1].faultType != FaultLeaderIdleness || faults[n-1].culprit != h.w.Keys[q.Leader].Address || res.proposal != nil {
+			note = "no closing LeaderIdleness fault against the leader: " + res.String()
+			out.Returned = -1
+		} else {
+			faults = faults[:n-1]
+		}
+	}
+	for _, f := range faults {
+		typ := map[CoordinationFaultType]string{FaultLeaderImpersonation: "impersonation", FaultLeaderMistake: "mistake",
+			FaultLeaderIdleness: "idleness"}[f.faultType]
+		out.Faults = append(out.Faults, verifadm.Fault{Type: typ, Culprit: nameOf(f.culprit)})
+	}
+	return out, note, nil
 }
 
 // listener drives signingDoneCheck.listen.
@@ -290,4 +380,44 @@ func TestVerif_C12_Tbtc(t *testing.T) {
 		"coordinationExecutor.executeFollowerRoutine": h.follower,
 		"signingDoneCheck.listen":                     h.listener,
 	})
+	// streams of messages (specs/Admission/AdmissionLoop.tla)
+	verifadm.RunSequences(t, rep, "pkg/tbtc/coordinationExecutor.executeFollowerRoutine", h.followerSequence)
+	verifadm.RunSequences(t, rep, "pkg/tbtc/signingDoneCheck.listen", h.listenerSequence)
+}
+
+// listenerSequence replays a stream of done messages (AdmissionLoop.tla, kind firstWins).
+func (h *c12Tbtc) listenerSequence(q *verifadm.Sequence) (verifadm.LoopState, string, error) {
+	out := verifadm.LoopState{Done: [][2]int{}}
+	var included []group.MemberIndex
+	for s := 1; s <= h.w.N; s++ {
+		if s != q.Excl.Who {
+			included = append(included, group.MemberIndex(s))
+		}
+	}
+	ch := verifadm.NewChannel()
+	sdc := newSigningDoneCheck(h.w.N, ch, h.validator)
+	ctx, cancel := context.WithCancel(context.Background())
+	defer cancel()
+	sdc.listen(ctx, big.NewInt(100), c12Attempt, c12TimeoutBlock, included)
+	number := map[*signingDoneMessage]int{}
+	for i, c := range q.Msgs {
+		p, err := h.payload(c, "signingDoneMessage")
+		if _, _, e, stop := verifadm.Dropped(err); stop {
+			if e != nil {
+				return out, "", e
+			}
+			continue // dropped by the decoder
+		}
+		number[p.(*signingDoneMessage)] = i + 1
+		ch.Deliver(h.w.Net(c, p))
+	}
+	if !ch.Barrier(h.w, make(chan struct{})) {
+		return out, "", fmt.Errorf("harness: the listener did not reach the barrier message")
+	}
+	sdc.doneSignersMutex.Lock()
+	defer sdc.doneSignersMutex.Unlock()
+	for id, m := range sdc.doneSigners {
+		out.Done = append(out.Done, [2]int{int(id), number[m]})
+	}
+	return out, "", nil
 }
